@@ -232,3 +232,37 @@ class _X04(ClientProp):
 
 
 X04 = _X04()
+
+
+class _X05(BridgeProp):
+    id = "X05"
+    beyond = True
+    title = "scripts/discover_devices.py listens on the ports of the requested protocol type and prints each device once"
+    rule = ("protocol-type option in {1, 2, all, none} x valid broadcasts of every model sent to all four ports while the "
+            "script runs (as __main__ under runpy, one second of real time each); distinct = distinct events")
+
+    def mc_runs(self, ctx):
+        return []
+
+    def execute(self, scn):
+        from ..clidrive import run_discover
+        return run_discover(scn)
+
+    def scenarios(self, ctx: Ctx):
+        rng = ctx.rng
+        out = []
+        for typ, argv in (("1", ["1", "-t", "1"]), ("2", ["1", "-t", "2"]), ("all", ["1", "-t", "all"]), ("", ["1"])):
+            for _ in range(ctx.pick(1, 4)):
+                dgrams = [{"p": p, "d": rdev(rng)} for p in PORTS for _ in range(2)]
+                rng.shuffle(dgrams)
+                out.append({"type": typ, "argv": argv, "dgrams": dgrams})
+        return out
+
+    def owns(self, clause):
+        return clause.startswith("X05:")
+
+    def nontrivial(self, ev):
+        return ev["ev"] == "Discover"
+
+
+X05 = _X05()
